@@ -11,6 +11,7 @@ import (
 	"github.com/corestario/kyber/share"
 
 	"github.com/lidofinance/dc4bc/client/api/dto"
+	"github.com/lidofinance/dc4bc/client/types"
 	"github.com/lidofinance/dc4bc/dkg"
 	fsmtypes "github.com/lidofinance/dc4bc/fsm/types"
 	"github.com/lidofinance/dc4bc/fsm/types/requests"
@@ -317,4 +318,50 @@ func joinInts(a []int) string {
 		s = append(s, fmt.Sprint(x))
 	}
 	return strings.Join(s, ",")
+}
+
+// ReinitFrom builds a fresh world with the same machines' mnemonics (same seed) and fresh
+// communication keys, and reinitialises the round from the old world's board dump through the
+// real procedure: GenerateReDKGMessage (+ optional adaptation) -> ReInitDKG -> reinit operation
+// through every machine -> result back.
+func ReinitFrom(old *Ceremony, commSeed uint64, adapt func(*types.ReDKG) (*types.ReDKG, error), policy world.RunPolicy) (*Ceremony, *types.ReDKG, error) {
+	var names []string
+	for _, n := range old.W.Nodes {
+		names = append(names, n.Name)
+	}
+	w, err := world.NewWorld(world.Options{N: old.N, T: old.T, Seed: old.W.Opt.Seed, CommSeed: commSeed, Names: names})
+	if err != nil {
+		return nil, nil, err
+	}
+	ce := &Ceremony{W: w, N: old.N, T: old.T, Round: old.Round}
+	keys := map[string][]byte{}
+	for _, n := range w.Nodes {
+		keys[n.Name] = n.KeyPair.Pub
+	}
+	msgs, _ := old.W.Board.GetMessages(0)
+	re, err := types.GenerateReDKGMessage(msgs, keys)
+	if err != nil {
+		w.Close()
+		return nil, nil, err
+	}
+	if adapt != nil {
+		if re, err = adapt(re); err != nil {
+			w.Close()
+			return nil, nil, err
+		}
+	}
+	bz, err := json.Marshal(re)
+	if err != nil {
+		w.Close()
+		return nil, nil, err
+	}
+	if err := w.Nodes[0].Svc.ReInitDKG(&dto.ReInitDKGDTO{ID: re.DKGID, Payload: bz}); err != nil {
+		w.Close()
+		return nil, nil, err
+	}
+	if _, q := w.Run(policy, 4000); !q {
+		w.Close()
+		return nil, nil, fmt.Errorf("reinit did not reach quiescence")
+	}
+	return ce, re, nil
 }
